@@ -105,7 +105,18 @@ pub fn gen_project(t: &mut Tape) -> Proj {
                 _ => " -> Result<(), String>".to_string(),
             };
             let asy = if t.pick(3) == 2 { "async " } else { "" };
-            src.push_str(&format!("#[tauri::command]\npub {}fn {}({}){} {{\n    todo!()\n}}\n\n", asy, cname, params.join(", "), ret));
+            // some commands emit events (the events module and the cache's view of the events)
+            let mut params = params;
+            let mut body = String::new();
+            if t.chance(1, 3) {
+                params.insert(0, "app: tauri::AppHandle".to_string());
+                let n = t.range(1, 2);
+                for e in 0..n {
+                    let payload = *t.choose(&["1", "\"text\"", "true"]);
+                    body.push_str(&format!("    app.emit(\"{}-event-{}\", {}).unwrap();\n", cname.replace('_', "-"), e, payload));
+                }
+            }
+            src.push_str(&format!("#[tauri::command]\npub {}fn {}({}){} {{\n{}    todo!()\n}}\n\n", asy, cname, params.join(", "), ret, body));
             commands.push(cname);
         }
         crate::gen::rust::must_parse(name, &src);
